@@ -62,6 +62,9 @@ def save_footprints_to_netcdf(results, config, filepath):
     if is_3d:
         flx_data = np.zeros((n_time, n_towers, nz_out, ny, nx))
         conc_data = np.zeros((n_time, n_towers, nz_out, ny, nx))
+        # heights of the output levels differ between towers of different
+        # measurement height and (roughness derived from ustar) between steps
+        level_height = np.zeros((n_time, n_towers, nz_out))
         dims = ["time", "tower", "z", "y", "x"]
     else:
         flx_data = np.zeros((n_time, n_towers, ny, nx))
@@ -77,6 +80,8 @@ def save_footprints_to_netcdf(results, config, filepath):
         for t, r in enumerate(results[tower_name]):
             flx_data[t, ti] = r["flx"]
             conc_data[t, ti] = r["conc"]
+            if is_3d:
+                level_height[t, ti] = r["grid"][2][:, 0, 0]
             if ti == 0:  # met params are the same for all towers
                 ustar_data[t] = r["params"]["ustar"]
                 mol_data[t] = r["params"]["mol"]
@@ -161,6 +166,14 @@ def save_footprints_to_netcdf(results, config, filepath):
             "domain_ymax": config.domain.ymax,
         },
     )
+
+    if is_3d:
+        # the z coordinate holds the heights of the first result only
+        ds["level_height"] = (
+            ["time", "tower", "z"],
+            level_height,
+            {"long_name": "height of output level", "units": "m"},
+        )
 
     encoding = {
         "footprint": {"zlib": True, "complevel": 4},
